@@ -762,3 +762,131 @@ db_bt_harness!(#[kani::unwind(5)] u30_btree_get_size_is_the_length_of_what_get_r
 	}
 	kani::cover!(mode == 0 && hit, "reached");
 });
+
+// ================================================================== U38: tree nodes are read from the commit overlay first, then from the column,
+// and are unpacked by the decoder proved under U11. DbInner::{get_node, get_node_children, get_root} on a multitree column.
+pub(crate) static mut NA_MODE: u8 = 0; // 0 = node not in the commit overlay, 1 = in the commit overlay
+pub(crate) static mut NA_ADDR_OK: bool = true;
+pub(crate) static mut NA_ADDR: u64 = 0;
+pub(crate) static mut NA_OV: [u8; 11] = [0; 11];
+pub(crate) static mut NA_COL: [u8; 11] = [0; 11];
+pub(crate) static mut NA_COL_HIT: bool = false;
+pub(crate) static mut NA_COL_N: usize = 0;
+// the packed node as a heap vector whose child-count byte is a constant for the symbolic executor (written by itself)
+fn packed_vec(p: &[u8; 11]) -> Vec<u8> {
+	let mut v = Vec::with_capacity(11);
+	v.push(p[0]);
+	v.push(p[1]);
+	v.push(p[2]);
+	v.push(p[3]);
+	v.push(p[4]);
+	v.push(p[5]);
+	v.push(p[6]);
+	v.push(p[7]);
+	v.push(p[8]);
+	v.push(p[9]);
+	v.push(1u8);
+	v
+}
+fn packed_node(a: u8, b: u8, child: u64) -> [u8; 11] {
+	let c = child.to_le_bytes();
+	[a, b, c[0], c[1], c[2], c[3], c[4], c[5], c[6], c[7], 1]
+}
+// CommitOverlay::get_address by contract: the node queued at this address, if any
+pub(crate) fn stub_overlay_get_address(_o: &CommitOverlay, address: u64) -> Option<RcValue> {
+	unsafe {
+		NA_ADDR_OK = NA_ADDR_OK && address == NA_ADDR;
+		if NA_MODE == 1 {
+			Some(RcValue::from(packed_vec(&NA_OV)))
+		} else {
+			None
+		}
+	}
+}
+// HashColumn::get_value by contract: the node stored at this address (log overlay, then tables), if any
+pub(crate) fn stub_column_get_value<L: crate::log::LogQuery>(_c: &crate::column::HashColumn, address: crate::index::Address, _log: &L) -> Result<Option<Value>> {
+	unsafe {
+		NA_COL_N += 1;
+		NA_ADDR_OK = NA_ADDR_OK && address.as_u64() == NA_ADDR;
+		if NA_COL_HIT {
+			Ok(Some(packed_vec(&NA_COL)))
+		} else {
+			Ok(None)
+		}
+	}
+}
+fn mk_db_one_multitree_column() -> std::mem::ManuallyDrop<DbInner> {
+	let mut db = mk_db_one_hash_column();
+	db.options.columns[0].multitree = true;
+	db.options.columns[0].append_only = true;
+	unsafe {
+		NA_MODE = kani::any::<u8>() % 2;
+		NA_ADDR_OK = true;
+		NA_ADDR = kani::any();
+		NA_COL_HIT = kani::any();
+		NA_COL_N = 0;
+	}
+	db
+}
+db_harness!(#[kani::unwind(4)]
+	#[kani::stub(CommitOverlay::get_address, stub_overlay_get_address)]
+	#[kani::stub(crate::column::HashColumn::get_value, stub_column_get_value)]
+	u38_node_read_from_overlay_then_column_and_unpacked, {
+	let db = mk_db_one_multitree_column();
+	let (a1, b1, a2, b2): (u8, u8, u8, u8) = (kani::any(), kani::any(), kani::any(), kani::any());
+	let (c1, c2): (u64, u64) = (kani::any(), kani::any());
+	unsafe {
+		NA_OV = packed_node(a1, b1, c1);
+		NA_COL = packed_node(a2, b2, c2);
+	}
+	let addr = unsafe { NA_ADDR };
+	let r = ok(db.get_node(0, addr, true));
+	let (mode, hit) = unsafe { (NA_MODE, NA_COL_HIT) };
+	assert!(unsafe { NA_ADDR_OK }, "U38.get_node.looks_up_the_address_as_given");
+	match r {
+		None => assert!(false, "U38.get_node.no_error"),
+		Some(got) => {
+			let want = if mode == 1 { Some((a1, b1, c1)) } else if hit { Some((a2, b2, c2)) } else { None };
+			if mode == 1 {
+				assert!(unsafe { NA_COL_N } == 0, "U38.get_node.column_not_consulted_when_overlay_holds_the_node");
+			}
+			match (&got, want) {
+				(Some((data, children)), Some((a, b, c))) => {
+					assert!(data.len() == 2 && data[0] == a && data[1] == b, "U38.get_node.returns_exactly_the_node_data");
+					assert!(children.len() == 1 && children[0] == c, "U38.get_node.returns_exactly_the_children_in_order");
+				},
+				(None, None) => {},
+				_ => assert!(false, "U38.get_node.present_iff_overlay_or_column_holds_the_node"),
+			}
+			std::mem::forget(got);
+		},
+	}
+	kani::cover!(mode == 0 && hit, "reached");
+});
+db_harness!(#[kani::unwind(4)]
+	#[kani::stub(CommitOverlay::get_address, stub_overlay_get_address)]
+	#[kani::stub(crate::column::HashColumn::get_value, stub_column_get_value)]
+	u38_node_children_read_from_overlay_then_column, {
+	let db = mk_db_one_multitree_column();
+	let (c1, c2): (u64, u64) = (kani::any(), kani::any());
+	unsafe {
+		NA_OV = packed_node(kani::any(), kani::any(), c1);
+		NA_COL = packed_node(kani::any(), kani::any(), c2);
+	}
+	let addr = unsafe { NA_ADDR };
+	let r = ok(db.get_node_children(0, addr, true));
+	let (mode, hit) = unsafe { (NA_MODE, NA_COL_HIT) };
+	match r {
+		None => assert!(false, "U38.get_node_children.no_error"),
+		Some(got) => {
+			let want = if mode == 1 { Some(c1) } else if hit { Some(c2) } else { None };
+			match (&got, want) {
+				(Some(children), Some(c)) => assert!(children.len() == 1 && children[0] == c, "U38.get_node_children.returns_exactly_the_children_in_order"),
+				(None, None) => {},
+				_ => assert!(false, "U38.get_node_children.present_iff_overlay_or_column_holds_the_node"),
+			}
+			std::mem::forget(got);
+		},
+	}
+	kani::cover!(mode == 1, "reached");
+});
